@@ -48,7 +48,7 @@ COMPONENTS = {
 PROBES = ["failed_write_with_pending", "failed_write_first_after_create", "failed_write_validator_on",
           "write_block_with_pending", "append_after_empty_flush", "append_different_args",
           "zero_byte_records_only", "donor_codec_differs", "block_reused", "block_pre_iterated",
-          "foreign_donor", "large_record", "real_file"]
+          "foreign_donor", "large_record", "real_file", "foreign_start", "header_gt_64k"]
 
 
 def setup():
@@ -169,8 +169,12 @@ def _history(F, ch, ctx, st):
     validator = ch.chance(30)
     marker = ch.bytes(16) if ch.chance(50) else b""
     metadata = {"k": "v"} if ch.chance(30) else None
+    if metadata is not None and ch.chance(12):
+        metadata["big"] = "m" * ch.pick([65536, 70000])   # a header beyond 64 KiB
+        ctx.probe("header_gt_64k")
     desc = {"schema": schema, "stream": st.kind, "codec": codec, "sync_interval": sync_interval,
-            "validator": validator, "sync_marker": jsonable(marker), "metadata": metadata}
+            "validator": validator, "sync_marker": jsonable(marker),
+            "metadata": {k: (v if len(v) < 100 else v[:20] + "...(%d)" % len(v)) for k, v in metadata.items()} if metadata else None}
     ops = []
     serial = [0]
     nflush_nonempty = 0
@@ -202,10 +206,39 @@ def _history(F, ch, ctx, st):
     if metadata is not None:
         kw["metadata"] = dict(metadata)
     wschema = F.parse_schema(json.loads(json.dumps(schema))) if ch.chance(40) else schema
-    w = F.write.Writer(st.fo, wschema, **kw)
-    ops.append({"op": "create"})
-    model.header = st.value()
-    if model.header:
+    foreign_start = ch.chance(10)
+    if foreign_start:
+        # the stream already holds a layout-valid file from ANOTHER writer (header map possibly in
+        # several chunks, codec key possibly absent, empty blocks); fastavro only ever appends to it
+        ctx.probe("foreign_start")
+        nrec0 = ch.draw(4)
+        recs0 = [common.strip_hints(new_record(), node) for _ in range(nrec0)]
+        fcodec = "null" if ch.chance(60) else codec
+        blocks0 = [recs0[:1], [], recs0[1:]] if recs0 and ch.chance(50) else ([recs0] if recs0 else [])
+        fbytes, ftruth = refavro.write_container(node, schema, blocks0, codec=fcodec, sync=ch.bytes(16), ch=ch,
+                                                 codec_key=(fcodec != "null") or ch.chance(40), meta=metadata,
+                                                 layout=refavro.Layout(ch))
+        st.fo.write(fbytes)
+        model.records.extend(refavro.parse_container(fbytes).records)   # what the foreign writer actually stored
+        model.header = fbytes[:ftruth["header_len"]]
+        desc["foreign_start"] = {"codec": fcodec, "blocks": [len(b) for b in blocks0], "header_chunks": ftruth["header_chunks"]}
+        fo = st.reopen()
+        rk = dict(codec=ch.pick(common.CODECS), sync_interval=sync_interval, validator=validator)
+        if ch.chance(40):
+            rk["compression_level"] = ch.pick([1, 9])
+        if ch.chance(40):
+            rk["metadata"] = {"other": "meta"}
+        try:
+            w = F.write.Writer(fo, None if ch.draw(2) else wschema, **rk)
+        except Exception as e:  # noqa
+            raise Violation("reopen", "append-to-foreign-file-raises", detail={"exc": jsonable(e), "args": jsonable(rk)}, scenario=desc)
+        ops.append({"op": "foreign_file_then_reopen", "codec_arg": rk["codec"], "n": nrec0})
+        _check(F, st, model, node, desc, ops, ctx, "after-foreign-reopen")
+    else:
+        w = F.write.Writer(st.fo, wschema, **kw)
+        ops.append({"op": "create"})
+        model.header = st.value()
+    if model.header and not foreign_start:
         # whatever is on the stream once the writer exists must be exactly a complete header
         # (an implementation that writes the header lazily leaves the stream empty here; the
         # header is then pinned at the first read-back check instead)
